@@ -346,6 +346,7 @@ def run(rep, facts, tier):
 
     rule_12_6(rep, fx)
     rule_move_all(rep, fx, 'R12.7')
+    rule_12_8(rep, fx)
 
 
 PER_PARTICIPANT_STORES = ('participant_proxies', 'participant_last_life_signs', 'external_topic_readers', 'external_topic_writers',
@@ -472,3 +473,34 @@ def _plain12(t):
     while isinstance(t, tuple) and t and t[0] in ('ref', 'deref', 'copy', 'move') and len(t) > 1 and isinstance(t[1], tuple):
         t = t[1]
     return t
+
+
+def rule_12_8(rep, fx):
+    """The lease a participant is judged by is the one of its latest announcement: participant_cleanup reads it from the stored proxy, so the proxy must be replaced by
+    every accepted announcement (not only by the first one)."""
+    rep.rule('R12.8', 'latest announcement wins: every accepting path of update_participant stores the announced data into participant_proxies[guid.prefix] with an overwriting '
+                      'insert(prefix, data.clone()) (not entry().or_insert*, not under "unknown participant" only), the key being the prefix of the announced GUID; '
+                      'participant_cleanup takes the lease from that map (R12.1)')
+    up = fx.find('discovery::discovery_db::DiscoveryDB::update_participant')
+    rep.analysed(up)
+    og = Origins(up, summaries=False)
+    P = Pos(up)
+    ins = []
+    for bb, t in up.calls():
+        cr = callee_res(t)
+        if cr.endswith('BTreeMap::<K, V, A>::insert') and has_field(og.of_operand(t['args'][0], bb, 'term'), 'participant_proxies'):
+            k = og.of_operand(t['args'][1], bb, 'term')
+            v = og.of_operand(t['args'][2], bb, 'term')
+            if term_has(k, lambda x: x[0] == 'field' and x[1] == 'prefix') and term_has(k, lambda x: x[0] == 'field' and x[1] == 'participant_guid') and term_has(v, lambda x: x == ('param', 2)):
+                ins.append((bb, 'term'))
+    weak = [callee_res(t).rsplit('::', 1)[-1] for bb, t in up.calls() if callee_res(t).rsplit('::', 1)[-1] in ('entry', 'or_insert', 'or_insert_with', 'or_default', 'try_insert') and
+            (has_field(og.of_operand(t['args'][0], bb, 'term'), 'participant_proxies') or has_call(og.of_operand(t['args'][0], bb, 'term'), '::entry'))]
+    # accepting returns: every return except the one behind the entity-id sanity check (returns false before anything is stored)
+    lifes = [(bb, 'term') for bb, t in up.calls() if callee_res(t).endswith('BTreeMap::<K, V, A>::insert') and has_field(og.of_operand(t['args'][0], bb, 'term'), 'participant_last_life_signs')]
+    ok = bool(ins) and not weak and bool(lifes)
+    # the proxy is stored on exactly the paths on which the life sign is refreshed (the accepting ones)
+    for l in lifes:
+        ok = ok and P.every_path_passes(None, l, via_pos=ins, from_entry=True)
+    rep.check(ok, 'R12.8', 'update_participant/stores-latest', 'participant_proxies.insert(guid.prefix, data.clone()) on every accepting path',
+              'update_participant does not overwrite the stored proxy with the announced data on every accepting path (inserts: %d, non-overwriting forms: %s): the participant keeps '
+              'being judged by the lease of an earlier announcement - dropped while alive after it lengthened its lease, kept after it shortened it' % (len(ins), weak), up.where())
